@@ -31,6 +31,7 @@ proved on top of the stream-machine model of C01/C20 relative to a small callbac
 import BV.Lemmas.RecoderSim
 import BV.Lemmas.RecoderPos
 import BV.Lemmas.RecoderSlices
+import BV.Lemmas.RecoderStride
 import BV.Props.C18
 
 namespace BV.Props.C14
@@ -317,6 +318,36 @@ example : Chain [(0, 2), (2, 10)] 0 10 := ⟨rfl, by decide, rfl, by decide, rfl
 example : cover [10, 11, 12, 13, 14, 15, 16, 17, 18, 19] [(0, 2), (2, 10)] = [10, 11, 12, 13, 14, 15, 16, 17, 18, 19] := by decide
 
 end Slices
+
+/-! ### the detection passes fed by the same `process_command_queue` -/
+
+/-- **the `choose_stride` assertion follows from the allocation policy, for every block count**: whatever IR
+`process_command_queue` pushes into `StrideEval` (any number of literal block switches, any literals), no score index of
+`update_cost_base` is out of range, the three assertions of `choose_stride` hold and all its reads are in bounds; it
+chooses one stride per `BlockSwitchLiteral` command. -/
+theorem stride_pass_never_panics (ir : List IR) : stridePass ir = some (countBsl ir) := stride_pass_total ir
+
+/-- the bound itself: after any IR, `score.len() ≥ 8 · epochs + 8` (what `choose_stride` reads), and `≥ 32` -/
+theorem stride_score_bound (ir : List IR) :
+    ∃ s, StrideSt.new.pushAll ir = some s ∧ 32 ≤ s.len ∧ s.epoch * 8 + 8 ≤ s.len ∧ s.epoch = countBsl ir := by
+  obtain ⟨s, e, h⟩ := StrideSt.pushAll_ok ir StrideSt.new StrideSt.new_ok
+  exact ⟨s, e, h.1, h.2, by rw [StrideSt.pushAll_epoch ir _ _ e]; simp [StrideSt.new]⟩
+
+/-- the assertion as it was before the fix demanded 8 more slots than the policy guarantees: it failed exactly when
+the last epoch's scores end at the end of the array, first at 3, 7, 15, 31 literal blocks -/
+theorem old_choose_stride_assert_too_strict :
+    (∀ s : StrideSt, s.Ok → (s.chooseAssertsOld s.epoch = false ↔ s.len < s.epoch * 8 + 16)) ∧
+    stridePassOld (List.replicate 3 (IR.bsl 0)) = none ∧ stridePassOld (List.replicate 7 (IR.bsl 0)) = none ∧
+    stridePassOld (List.replicate 15 (IR.bsl 0)) = none ∧ stridePassOld (List.replicate 31 (IR.bsl 0)) = none :=
+  ⟨old_assert_fails_iff, old_assert_panics_at_3_7_15_31.1, old_assert_panics_at_3_7_15_31.2.1,
+   old_assert_panics_at_3_7_15_31.2.2.1, old_assert_panics_at_3_7_15_31.2.2.2.1⟩
+
+/-- `PriorEval`: every score index of a literal is inside the fixed 8192-entry table and `choose_bitmask` fills an array
+of exactly that size -/
+theorem prior_pass_indices_in_bounds (strideByte cmPrior highNibble : Nat) (h1 : strideByte < 256) (h2 : cmPrior < 256)
+    (h3 : highNibble < 16) :
+    priorUpperIndex strideByte cmPrior < priorScoreLen ∧ priorLowerIndex cmPrior highNibble < priorScoreLen ∧
+    priorScoreLen = numMixingValues := prior_eval_indices_in_bounds strideByte cmPrior highNibble h1 h2 h3
 
 /-! ### non-vacuity: a concrete meta-block that wraps the ring buffer inside its first literal run -/
 
